@@ -13,7 +13,8 @@ P = "FimVerif.C08."
 THEOREMS = [P + t for t in (
     "remove_frame", "deleteAll_minus", "mem_cpDel", "removeCp_exact", "removeNs_exact", "removeComp_exact",
     "removeNodeG_exact", "removeLink_exact", "removeNodeApi_exact", "removeFacilityApi_exact", "removeSwitchApi_exact",
-    "removeComponentApi_exact",
+    "removeComponentApi_exact", "handle_fresh_disconnect", "handle_fresh_removeChild", "handle_fresh_unpeer",
+    "remove_exact_partial", "remove_exact_counterexample", "removeLink_orphan_counterexample",
 )]
 TRUSTED_BASE = [
     "Model/Remove.lean mirrors by hand remove_cp_and_links / remove_ns_with_cps_and_links / remove_component_with_nss_cps_and_links / "
@@ -201,7 +202,7 @@ def all_runs(ctx, tag, n):
 
 
 def correspondence(ctx, res, n=None):
-    recs = [r for r in all_runs(ctx, "run", n or ctx.scale(36, 500)) if not r.get("skip") and r.get("lean")]
+    recs = [r for r in all_runs(ctx, "run", n or ctx.scale(36, 220)) if not r.get("skip") and r.get("lean")]
     model = LeanDriver("C08").run([json.dumps(r["lean"]) for r in recs])
     for r, m in zip(recs, model):
         res.evaluations += 1
@@ -266,7 +267,7 @@ def judge(rec, res):
 
 
 def oracle(ctx, res, n=None):
-    recs = all_runs(ctx, "run", n or ctx.scale(36, 500))
+    recs = all_runs(ctx, "run", n or ctx.scale(36, 220))
     for r in recs:
         if r.get("skip"):
             res.count("skipped")
@@ -282,7 +283,7 @@ def oracle(ctx, res, n=None):
 
 
 def search(ctx, res, broken):
-    recs = all_runs(ctx, "search", ctx.scale(200, 1500))
+    recs = all_runs(ctx, "search", ctx.scale(150, 600))
     for r in recs:
         if not r.get("skip"):
             res.evaluations += 1
